@@ -28,7 +28,14 @@ def validate(ctx, col, mode, runs, maxkeys, calls, kinds, tag=None):
     if mism:
         lines = text.splitlines()
         runs_meta = [json.loads(x) for x in open(tables)]
-    for m in mism:
+    # streams are written children first: within one run the first rejected stream is the innermost node that
+    # misbehaved; rejections of its ancestors' streams in the same run are consequences and are not reported
+    first_of_run = {}
+    for m in sorted(mism, key=lambda m: m["line"]):
+        meta = next(x for x in runs_meta if x["first_line"] <= m["line"] <= x["last_line"])
+        first_of_run.setdefault(meta["run"], m)
+    consequences = len(mism) - len(first_of_run)
+    for m in sorted(first_of_run.values(), key=lambda m: m["line"]):
         ln = m["line"]                      # 1-based line of the offending call
         start = ln
         while json.loads(lines[start - 1])["op"] != "reset":
@@ -56,6 +63,9 @@ def validate(ctx, col, mode, runs, maxkeys, calls, kinds, tag=None):
     for k in ("streams", "events", "lists_multiblock", "lists_exactfit", "lists_padded", "lists_multins"):
         ctx.extra_cov["trace_" + k] = ctx.extra_cov.get("trace_" + k, 0) + summary.get(k, 0)
     ctx.extra_cov["trace_mismatches"] = ctx.extra_cov.get("trace_mismatches", 0) + len(mism)
+    if mism:
+        ctx.note("binding B (%s): %d rejected streams in %d runs (%d are ancestors of a rejected stream)" % (
+            tag, len(mism), len(first_of_run), consequences))
     ctx.note("binding B (%s): %d runs, %d streams, %d recorded calls judged by TLC, %d mismatches" % (
         tag, summary.get("runs", 0), summary.get("streams", 0), summary.get("events", 0), len(mism)))
     return summary, mism
